@@ -430,7 +430,11 @@ def oracle(case, obs):
                 if op[2] in REPLY_LOST and s["state"] != "dead":
                     # the daemon handled the request; its answer was lost on the way
                     if s["state"] == "maybe":
+                        # expiry exactly at the limit: the daemon may or may not still have had it; if it had, it
+                        # served this request and thereby re-associated the stream with this connection
                         s["uncertain"] = True
+                        if s["owner"] is None:
+                            s["owner"], s["linger_since"] = pconn[h["p"]], None
                     else:
                         n = len(s["given"])
                         if n < len(s["src"]) and s["src"][n][0] == "y":
